@@ -6,7 +6,8 @@
     property: Model/BtpSpec.v ([mon_endpoint] for one end against arbitrary
     input, [mon_pair] for two well-behaved ends). *)
 From RsM Require Import Lib.MachInt Model.Btp Model.BtpSpec
-  Proofs.BtpCodec Proofs.BtpFacts Proofs.BtpHostile Proofs.BtpPair Proofs.BtpTheorems.
+  Proofs.BtpCodec Proofs.BtpFacts Proofs.BtpHostile Proofs.BtpPair Proofs.BtpTheorems
+  Proofs.BtpHandshake.
 Open Scope N_scope.
 
 (** * A hostile peer: arbitrary bytes, at any time, interleaved with any local
@@ -46,8 +47,8 @@ Print Assumptions C18_header_roundtrip.
     handed in, and after every step the window accounting holds. *)
 Theorem C18_pair_safe : forall m w : N,
   20 <= m <= 244 -> 1 <= w <= 255 -> w * m + 1234 <= RX_CAP ->
-  forall (c : cfg) (ver : N) (ops : list sop),
-  mon_pair ops (snd (sys_run c (sys_established c ver m w) ops)) = true.
+  forall (c : cfg) (ver : N) (rel : bool) (ops : list sop),
+  mon_pair ops (snd (sys_run c (sys_established c ver m w rel) ops)) = true.
 Proof. exact pair_safe. Qed.
 Print Assumptions C18_pair_safe.
 
@@ -55,12 +56,12 @@ Print Assumptions C18_pair_safe.
     application are a prefix of the messages BTP took from the other one. *)
 Theorem C18_exactly_once_in_order : forall m w : N,
   20 <= m <= 244 -> 1 <= w <= 255 -> w * m + 1234 <= RX_CAP ->
-  forall (c : cfg) (ver : N) (ops : list sop),
-  let rs := snd (sys_run c (sys_established c ver m w) ops) in
+  forall (c : cfg) (ver : N) (rel : bool) (ops : list sop),
+  let rs := snd (sys_run c (sys_established c ver m w rel) ops) in
   (exists rest, submitted SA ops rs = fetched SB ops rs ++ rest) /\
   (exists rest, submitted SB ops rs = fetched SA ops rs ++ rest).
 Proof.
-  intros m w Hm Hw Hc c ver ops. apply mon_pair_in_order. apply pair_safe; assumption.
+  intros m w Hm Hw Hc c ver rel ops. apply mon_pair_in_order. apply pair_safe; assumption.
 Qed.
 Print Assumptions C18_exactly_once_in_order.
 
@@ -68,11 +69,11 @@ Print Assumptions C18_exactly_once_in_order.
     an empty or over-long message gets an error. *)
 Theorem C18_honest_never_refused : forall m w : N,
   20 <= m <= 244 -> 1 <= w <= 255 -> w * m + 1234 <= RX_CAP ->
-  forall (c : cfg) (ver : N) (ops : list sop),
+  forall (c : cfg) (ver : N) (rel : bool) (ops : list sop),
   Forall2 (fun o r => answer_ok o (fst (fst r))) ops
-          (snd (sys_run c (sys_established c ver m w) ops)).
+          (snd (sys_run c (sys_established c ver m w rel) ops)).
 Proof.
-  intros m w Hm Hw Hc c ver ops.
+  intros m w Hm Hw Hc c ver rel ops.
   apply (pmon_run_answers ops ps_init [] []). apply pair_safe; assumption.
 Qed.
 Print Assumptions C18_honest_never_refused.
@@ -82,8 +83,8 @@ Print Assumptions C18_honest_never_refused.
     the window, and the segments in flight fit the receiver's free window. *)
 Theorem C18_window_respected : forall m w : N,
   20 <= m <= 244 -> 1 <= w <= 255 -> w * m + 1234 <= RX_CAP ->
-  forall (c : cfg) (ver : N) (ops : list sop),
-  let s := fst (sys_run c (sys_established c ver m w) ops) in
+  forall (c : cfg) (ver : N) (rel : bool) (ops : list sop),
+  let s := fst (sys_run c (sys_established c ver m w rel) ops) in
   nlen (chAB s) + rack_level (recv (sess (epB s))) + slevel (send (sess (epA s))) <= w /\
   nlen (chAB s) <= rlevel (recv (sess (epB s))) /\
   nlen (chBA s) + rack_level (recv (sess (epA s))) + slevel (send (sess (epB s))) <= w /\
@@ -97,8 +98,8 @@ Print Assumptions C18_window_respected.
     nothing remains to be acknowledged. *)
 Theorem C18_ack_enabled : forall m w : N,
   20 <= m <= 244 -> 1 <= w <= 255 -> w * m + 1234 <= RX_CAP ->
-  forall (c : cfg) (ver : N) (ops : list sop) (x : side) (t : bool),
-  let s := fst (sys_run c (sys_established c ver m w) ops) in
+  forall (c : cfg) (ver : N) (rel : bool) (ops : list sop) (x : side) (t : bool),
+  let s := fst (sys_run c (sys_established c ver m w rel) ops) in
   is_ack_due (sess (ep s x)) t = true -> 1 <= slevel (send (sess (ep s x))) ->
   exists b h p,
     snd (step (ep s x) (OOut (gatt_of c x) t POLL_CAP)) = RBytes b /\
@@ -108,8 +109,32 @@ Theorem C18_ack_enabled : forall m w : N,
 Proof. exact ack_enabled. Qed.
 Print Assumptions C18_ack_enabled.
 
-(** * The handshake: whatever is asked, an accepted request / response leaves a
-      segment size and window inside the range of the theorems above. *)
+(** * The handshake: for every GATT MTU (or none) on both sides and both MTU
+      negotiation modes, four steps from two fresh ends reach the state above,
+      with a segment size and window inside the range of the theorems; and
+      whatever is asked, an accepted request / response leaves usable values. *)
+Theorem C18_handshake_establishes : forall (c : cfg) (rel t1 t2 : bool),
+  let m := nego_mtu (gattA c) (gattB c) rel in
+  let w := nego_win (gattA c) (gattB c) rel in
+  fst (sys_run c (sys_fresh rel) [SPoll SA t1; SDeliver SB; SPoll SB t2; SDeliver SA])
+    = sys_established c 4 m w rel /\
+  20 <= m <= 244 /\ 1 <= w <= 255 /\ w * m + 1234 <= RX_CAP.
+Proof. exact handshake_establishes. Qed.
+Print Assumptions C18_handshake_establishes.
+
+(** From two fresh ends through the real handshake, then any schedule. *)
+Theorem C18_fresh_pair_safe : forall (c : cfg) (rel t1 t2 : bool) (ops : list sop),
+  mon_pair ops
+    (snd (sys_run c
+            (fst (sys_run c (sys_fresh rel) [SPoll SA t1; SDeliver SB; SPoll SB t2; SDeliver SA]))
+            ops)) = true.
+Proof.
+  intros c rel t1 t2 ops.
+  destruct (handshake_establishes c rel t1 t2) as (E & Hm & Hw & Hc). cbv zeta in E.
+  rewrite E. apply pair_safe; assumption.
+Qed.
+Print Assumptions C18_fresh_pair_safe.
+
 Theorem C18_handshake_request_valid : forall (s : session) (g : option N) (a : N) (h : hdr) (p : bytes) (s' : session),
   process_rx_handshake_req s g a h p = Ok s' ->
   20 <= mtu s' <= 244 /\ 1 <= swin (send s') <= 255 /\
@@ -145,11 +170,11 @@ Definition hs_ops : list sop := [SPoll SA false; SDeliver SB; SPoll SB false; SD
 
 (** the real handshake leads to the state the pair theorems start from *)
 Example C18_ex_handshake_min :
-  fst (sys_run c0 (sys_fresh false) hs_ops) = sys_established c0 4 20 79.
+  fst (sys_run c0 (sys_fresh false) hs_ops) = sys_established c0 4 20 79 false.
 Proof. vm_compute. reflexivity. Qed.
 
 Example C18_ex_handshake_max :
-  fst (sys_run c1 (sys_fresh false) hs_ops) = sys_established c1 4 244 6.
+  fst (sys_run c1 (sys_fresh false) hs_ops) = sys_established c1 4 244 6 false.
 Proof. vm_compute. reflexivity. Qed.
 
 (** the parameter range is inhabited at both ends, and by the smallest window *)
@@ -163,7 +188,7 @@ Proof. vm_compute. repeat split; intro H; discriminate H. Qed.
 Example C18_ex_delivery :
   let ops := [SSubmit SA [1;2;3;4;5;6;7;8;9;10;11;12;13;14;15;16;17;18]; SPoll SA false; SPoll SA false;
               SDeliver SB; SDeliver SB; SFetch SB; SSubmit SB [9;8;7]; SPoll SB false; SDeliver SA; SFetch SA] in
-  let rs := snd (sys_run c0 (sys_established c0 4 20 79) ops) in
+  let rs := snd (sys_run c0 (sys_established c0 4 20 79 false) ops) in
   fetched SB ops rs = [[1;2;3;4;5;6;7;8;9;10;11;12;13;14;15;16;17;18]] /\ fetched SA ops rs = [[9;8;7]].
 Proof. vm_compute. split; reflexivity. Qed.
 
